@@ -555,6 +555,18 @@ def with_heap(I, env):
             if e.get("__progress_oid__") == t.info[1][1]:
                 return sum(len(x) for x in e.get("__progress__", ()))
             raise CannotEval(repr(t))
+        if t.kind == "trip" and t.name[:1] == "n" and t.name[1:].isdigit() and int(t.name[1:]) in I.loops:
+            # how many iterations a loop that may end early actually starts (the one that breaks included)
+            L = I.loops[int(t.name[1:])]
+            run_loop._count_into = []
+            try:
+                run_loop(L, e, [])
+                cnt = run_loop._count_into[-1] if run_loop._count_into else None
+            finally:
+                run_loop._count_into = None
+            if cnt is None:
+                raise CannotEval(repr(t))
+            return cnt
         if t.kind == "loopout" and t.info and t.info[0] in I.loops:
             L = I.loops[t.info[0]]
             final = run_loop(L, e, [])[1]
@@ -669,6 +681,8 @@ def run_loop(L, env, group, cap=4096, probe=None):
         i += 1
     if probe is not None:
         return None
+    if isinstance(group, list) and getattr(run_loop, "_count_into", None) is not None:
+        run_loop._count_into.append(i if not (trip is not None and i >= trip) else trip)
     return out, state
 
 
